@@ -11,7 +11,7 @@ META = {
         "decides D1 grammar, D2 fields defined and well-typed, D3 counter/condition scoping against the decoder's "
         "naming rules (derived-counter map extracted from the decoder), D4 dispatch reachability by constant-folding "
         "the selector on every key, D5 symbolic bit-length polynomial = the standard's formula, D6 sibling relations. "
-        "Shared with C03: what the decoder takes a repeat count to be (derived MSM counts, coefficient-count polynomial, group routine D6-D8). "
+        "Shared with C03: each field is taken from its own window of the payload and the offset advances by its width (C03-D1/D5); what the decoder takes a repeat count to be (derived MSM counts, coefficient-count polynomial, group routine D6-D8). "
         "Exhaustive over all definitions, all field occurrences and all descriptors. Not decided: a transposition of two "
         "equal-width fields inside a message that has no sibling; resolution values."
     ),
@@ -37,6 +37,9 @@ def run(eng, ctx):
     from . import C09 as MSMMAPS
 
     MSMMAPS.run(eng, ctx, layout_only=True)
+    # "a message with given repeat counts occupies exactly the number of bits ...": the definitions give the widths, the decoder has to take
+    # exactly those bits - each field from its own window of the payload, the offset advanced by the field's width (C03-D1/D5, shared)
+    DEC.field_values(eng, ctx, "C03.D1", "C03.D2", "C03.D3", "C03.D5")
     m = DEC.DecoderModel(eng)
     SH.derived_counts(eng, ctx, "C03.D9", labels=False)
     DEC.harmonic_counts(eng, ctx, "C03.D9b", m)
